@@ -91,6 +91,15 @@ def main(argv):
     status = 0
     err = None
     try:
+        if pid != 'C19' and not os.environ.get('VERIF_SKIP_TV'):
+            # translator validation first: if the engine and the native build disagree on what the code does,
+            # nothing the engine says below could be believed
+            import tv
+            corpus = tv.CORPUS[:2] if tier == 'quick' else tv.CORPUS
+            okn, problems = tv.validate(ctx.session('rel'), corpus)
+            ctx.traces_validated = okn
+            if problems:
+                raise runner.Inconclusive('translator validation failed: ' + '; '.join(problems)[:600])
         props.PROPS[pid](ctx)
     except (llparse.Unsupported, runner.Inconclusive, RuntimeError) as e:
         err = '%s: %s' % (type(e).__name__, e)
